@@ -160,7 +160,12 @@ func newKdcSet(dir, name string, modes [][2]string) *kdcSet {
 	s := &kdcSet{name: name}
 	var hosts []string
 	for i, m := range modes {
-		k := newFakeKDC(m[0], m[1], []byte(fmt.Sprintf("<kdc-reply-%s-%d>", name, i)))
+		reply := []byte(fmt.Sprintf("<kdc-reply-%s-%d>", name, i))
+		if strings.HasPrefix(name, "big-") {
+			// replies larger than common scratch buffers (4 KiB, 8 KiB, 16 KiB); a datagram carries up to 65507 bytes
+			reply = []byte(strings.Repeat(string(reply), 30000/len(reply)))
+		}
+		k := newFakeKDC(m[0], m[1], reply)
 		s.kdcs = append(s.kdcs, k)
 		hosts = append(hosts, fmt.Sprintf("127.0.0.1:%d", k.port))
 	}
@@ -240,6 +245,8 @@ func streamC20(env *runEnv) {
 		newKdcSet(dir, "tcp-reply-close", [][2]string{{"reply-close", "refuse"}}),
 		newKdcSet(dir, "tcp-reply-hold", [][2]string{{"reply-hold", "refuse"}}),
 		newKdcSet(dir, "udp-reply", [][2]string{{"refuse", "reply"}}),
+		newKdcSet(dir, "big-udp-reply", [][2]string{{"refuse", "reply"}}),
+		newKdcSet(dir, "big-tcp-reply", [][2]string{{"reply-close", "refuse"}}),
 		newKdcSet(dir, "partial", [][2]string{{"partial", "silent"}}),
 		newKdcSet(dir, "closes", [][2]string{{"close", "refuse"}}),
 		newKdcSet(dir, "silent", [][2]string{{"silent", "silent"}}),
@@ -252,7 +259,13 @@ func streamC20(env *runEnv) {
 			for _, k := range s.kdcs {
 				k.stop()
 			}
-			s.srv.Close()
+			// a handler that never returns must not hang the check: it has been reported as a case already
+			done := make(chan struct{})
+			go func(srv *httptest.Server) { srv.CloseClientConnections(); srv.Close(); close(done) }(s.srv)
+			select {
+			case <-done:
+			case <-time.After(3 * time.Second):
+			}
 		}
 	}()
 	type job struct {
